@@ -1762,6 +1762,8 @@ def field_replacement_sites(W, adt, field):
                         return False
                     continue
                 rv = st.get("rv", {}) if st["k"] == "assign" else {}
+                if st["k"] == "assign" and rv.get("k") == "ref" and not rv.get("mut") and rv.get("place", {}).get("l") == l and (rv["place"].get("p") or [None])[0] == "deref":
+                    continue        # a shared reborrow (of the value or of a part of it): nothing can be replaced through it
                 if st["k"] == "assign" and rv.get("k") == "ref" and rv.get("place", {}).get("l") == l and rv["place"].get("p") == ["deref"] and not st["dst"].get("p"):
                     if not receiver_only(fn, st["dst"]["l"], depth + 1):
                         return False
